@@ -14,6 +14,7 @@ import Fdo.Drv.Rv
 import Fdo.Drv.Server
 import Fdo.Drv.Fsim
 import Fdo.Drv.Store
+import Fdo.Drv.Rounds
 /-
 Line-protocol driver: one operation per input line, one reply per output line.
 Imports model modules only (no proofs, no Mathlib) so that it links as a `lean_exe`.
@@ -38,6 +39,7 @@ def handlers : List (String × (String → List String → Option String)) := [
   ("server.", Drv.Server.handle),
   ("fsim.", Drv.Fsim.handle),
   ("store.", Drv.Store.handle),
+  ("rounds.", Drv.Rounds.handle),
 ]
 
 def dispatch (line : String) : String :=
